@@ -49,6 +49,13 @@ chk('C19', 'other',
     'Trusted: clang lowering, lsx executor, lsx/bv2int.py, z3, cvc5. In the integer encoding FP operations are uninterpreted functions of their operands (sound for unsat). '
     'Rates outside [0, 2^31], NaN and infinities are outside the statement (the cast is UB there).',
     'symbolic execution of LLVM IR + SMT (z3 BV/FP and integer encoding with explicit mod 2^64; cvc5 cross-check)', 'DESIGN.md §2.4, §3 C19')
+chk('C20', 'model_checking',
+    'Bounded symbolic execution of the real normalize_beatgrid on the exact-arithmetic domain (integer-valued offsets, integer samples per beat): grids of 0..4 markers, '
+    'symbolic sample count / first offset / first index, per-segment (step, tempo) from a stated menu. Structural clauses (which markers survive, invalid_argument iff < 2, first index -4, '
+    'interior markers untouched) and arithmetic clauses (last marker in [N, N + beat), first/last segment tempo kept) are each decided by z3 on every path; idempotence follows from them on this domain.',
+    'Trusted: clang lowering, lsx, the exact integer encoding of FP in lsx/bv2int.py (integrality and magnitude < 2^53 established by interval arithmetic; ceil(RNE(a/b)) = ceil(a/b) lemma), z3. '
+    'Non-integer offsets/tempi are outside (the rounding clauses do not hold for all doubles). One listed known finding (second surviving marker at index <= -4).',
+    'bounded symbolic execution of LLVM IR (lsx) + z3 linear integer arithmetic via an exact FP encoding', 'DESIGN.md §3 C20')
 for pid, why in (
     ('C10', 'persistence across close/reopen is a fact about SQLite\'s pager and two attached files; the glue has no input, schedule or fault to quantify over and SQLite (250 kLoC, not in the tree) cannot be encoded for a bounded symbolic engine (DESIGN.md §4)'),
     ('C12', 'a finite comparison of DDL emitted by create() with reference dumps modulo SQLite\'s own parser; no symbolic variable, needs the real SQLite to normalise both sides (DESIGN.md §4)'),
